@@ -194,12 +194,5 @@ class FieldArrayModel(FieldCompositeModel):
             self.product_expr_btor = self.get_product_expr().build(btor, ctx_width)
         return self.product_expr_btor    
         
-    def dispose(self):
-        # Release every solver handle held on behalf of this array
-        super().dispose()
-        self.size.dispose()
-        self.sum_expr_btor = None
-        self.product_expr_btor = None
-        
     def accept(self, v):
         v.visit_field_scalar_array(self)
